@@ -101,12 +101,33 @@ ENTRIES["ClsInitLater"] = '''class ClsInitLater(object):
         """
         self.size = size
 '''
-EXPECT = {"ClsInitLater": [("size", 4), ("ratio", 0.5), ("label", "l")], "ClsPlain": [("x", 5), ("y", "s")], "ClsAnn": [("n", 3), ("name", "b")], "fplain": [("p", None), ("q", 3)],
+# a subclass without a docstring of its own (the parent is documented); __init__ is its first statement
+ENTRIES["ClsInherits"] = '''class _Base(object):
+    """
+    Base summary
+
+    :cvar depth: the depth
+    """
+
+
+class ClsInherits(_Base):
+    def __init__(self, depth=2, width=8):
+        """
+        init doc
+
+        :param depth: the depth
+        :param width: the width
+        """
+        self.depth = depth
+'''
+EXPECT = {"ClsInherits": [("depth", 2), ("width", 8)], "ClsInitLater": [("size", 4), ("ratio", 0.5), ("label", "l")], "ClsPlain": [("x", 5), ("y", "s")], "ClsAnn": [("n", 3), ("name", "b")], "fplain": [("p", None), ("q", 3)],
           "fann": [("p", 1), ("q", 0.5)]}
 TYPES = ("class", "function", "argparse")
 TEMPLATES = ("{name}Config", "Gen{name}")
 PREPENDS = {"none": None, "constant": "CONST = 1\n", "import": "import sys\n", "stmt_then_import": '__author__ = "gen"\nimport sys\n',
-            "docstring_then_import": '"""Generated module."""\nimport sys\n'}
+            "docstring_then_import": '"""Generated module."""\nimport sys\n',
+            # aliased imports whose text starts like an import line of the imports file (import os / from typing import Optional)
+            "aliased_imports": "import os as _os\nfrom typing import Optional as Opt\n"}
 IMPORT_FILES = {"none": None, "zero": "VALUE = 1\n", "one": "import os\n\nVALUE = 1\n",
                 "three": "import os\nfrom typing import Optional\nimport json as j\n\nVALUE = 1\n",
                 # given as a dotted path through an alias that the prepend imports (resolved via the prepend's symbols)
